@@ -7,6 +7,7 @@ CONSTANTS
   MaxSteps = 6
   Forms = {"take", "read", "take_next", "read_inst"}
   Kinds = {"V", "D", "X"}
+  Retransmit = FALSE
   GenK = 400
 CONSTRAINT Bound
 VIEW View
